@@ -50,6 +50,11 @@ class Checker:
 
     def consistency(self, name, d, rec, expect=None):
         """Equality, ordering, sign predicates and the string form of one value must agree."""
+        if d == "panic":
+            # a total function of the API (comparison with zero, sign predicate, printing, negation, abs) panicked
+            self.evals += 1
+            self.violation("R3-total-function-panicked", "R3|panic|%s" % name, "describing %s panicked: comparisons, sign predicates, printing, negation and abs are total" % name, rec)
+            return
         v = val(d)
         self.evals += 1
         ctx = "%s(%s%s, %s%s)" % (name, "-" if rec["a"][0] else "", rec["a"][1], "-" if rec["b"][0] else "", rec["b"][1])
@@ -80,6 +85,10 @@ class Checker:
 
     def check(self, rec):
         self.records += 1
+        if rec["da"] == "panic" or rec["db"] == "panic":
+            self.evals += 1
+            self.violation("R3-total-function-panicked", "R3|panic|operand", "describing an operand built by the public constructors panicked", rec)
+            return
         a = val(rec["da"])
         b = val(rec["db"])
         rec["_a"], rec["_b"] = a, b
